@@ -34,8 +34,8 @@ func init() {
 }
 
 func c01(c *rt.Ctx) {
-	c.Rule("R1", 14, func() { c01R1(c) })
-	c.Rule("R1b", 26, func() { c01R1b(c) })
+	c.Rule("R1", 15, func() { c01R1(c) })
+	c.Rule("R1b", 28, func() { c01R1b(c) })
 	c.Rule("R2", 8, func() { c01R2(c) })
 	c.Rule("R3", 13, func() { c01R3(c) })
 }
@@ -223,7 +223,27 @@ var c01Provider = [][2]string{
 type c01Verdict struct {
 	bad, unsure []string
 	okAt        ssa.Instruction
+	okCalls     []ssa.Instruction // every accepted hand-over made in core.Wire's own body
 	pos         token.Pos
+}
+
+// ok records an accepted hand-over; the verdict holds when the accepted hand-overs together lie on every path of
+// core.Wire (if/else or switch arms that each make the subscription count).
+func (v *c01Verdict) ok(in ssa.Instruction) {
+	v.okCalls = append(v.okCalls, in)
+	set := map[ssa.Instruction]bool{}
+	for _, k := range v.okCalls {
+		set[k] = true
+	}
+	fn := in.Parent()
+	for _, r := range an.Returns(fn) {
+		if c01ReachAvoiding(fn, r, set) {
+			return
+		}
+	}
+	if v.okAt == nil {
+		v.okAt = v.okCalls[0]
+	}
 }
 
 func (v *c01Verdict) fail(pos token.Pos, s string) {
@@ -370,12 +390,7 @@ func c01R1(c *rt.Ctx) {
 	}
 
 	// ---- classify every call through a wire field made in Wire's own body
-	type edge struct {
-		sub    string // role of the subscription function called
-		cb     string // role of the callback handed over
-		call   ssa.CallInstruction
-		direct bool
-	}
+	type edge = c01Edge
 	var edges []edge
 	adapterSubs := map[*ssa.Function][]string{} // literal -> roles of the subscriptions it is handed to
 	adapterOther := map[*ssa.Function]string{}  // literal -> an unclassified use
@@ -391,13 +406,13 @@ func c01R1(c *rt.Ctx) {
 		}
 		for _, a := range ci.Common().Args {
 			if yf, ok := c01FieldValue(a); ok {
-				edges = append(edges, edge{roleOfField(sf), roleOfField(yf), ci, true})
+				edges = append(edges, edge{roleOfField(sf), roleOfField(yf), ci, true, nil})
 				continue
 			}
 			if g := c01FuncValue(a); g != nil && g.Parent() == wire {
 				adapterSubs[g] = append(adapterSubs[g], roleOfField(sf))
-				for _, yf := range c01FieldCalls(g) {
-					edges = append(edges, edge{roleOfField(sf), roleOfField(yf), ci, false})
+				for fc, yf := range c01FieldCalls(g) {
+					edges = append(edges, edge{roleOfField(sf), roleOfField(yf), ci, false, fc})
 				}
 			}
 		}
@@ -474,10 +489,10 @@ func c01R1(c *rt.Ctx) {
 										v.dunno(posOf(r), "the subscription receiving the adapter is not resolved")
 									} else if s != allowed {
 										v.fail(posOf(r), fmt.Sprintf("%s is invoked by a function subscribed to %s (only %s may feed it)", sink, s, allowed))
-									} else if v.okAt == nil {
+									} else {
 										for _, e := range edges {
-											if !e.direct && e.sub == allowed && e.cb == sink && c01DominatesReturns(e.call) {
-												v.okAt = e.call
+											if !e.direct && e.sub == allowed && e.cb == sink {
+												v.ok(e.call)
 											}
 										}
 									}
@@ -496,9 +511,7 @@ func c01R1(c *rt.Ctx) {
 							case r.Parent() != wire:
 								v.dunno(posOf(r), "subscription made inside a function literal")
 							default:
-								if c01DominatesReturns(r) && v.okAt == nil {
-									v.okAt = r
-								}
+								v.ok(r)
 							}
 						case *ssa.Store:
 							if fa, ok := r.Addr.(*ssa.FieldAddr); ok && r.Val == val && an.TypeName(fa.X.Type()) == c01WF {
@@ -570,8 +583,8 @@ func c01R1(c *rt.Ctx) {
 				v.dunno(posOf(ed.call), "provider handed to "+reg+" is not resolved")
 			case ed.cb != prov:
 				v.fail(posOf(ed.call), fmt.Sprintf("%s is given %s instead of %s", reg, ed.cb, prov))
-			case c01DominatesReturns(ed.call) && v.okAt == nil:
-				v.okAt = ed.call
+			default:
+				v.ok(ed.call)
 			}
 		}
 		// calls of the registration with something that is neither a wire field nor an adapter
@@ -610,6 +623,9 @@ func c01R1(c *rt.Ctx) {
 		_, pBound := fieldsOf[prov]
 		report(construct, v, bound && pBound, fmt.Sprintf("%s is never given %s on every path of core.Wire", reg, prov))
 	}
+
+	// ---- (c) order of the aggregator's subscribers: the aggregate store gates the broadcaster
+	c01R1Order(c, wire, edges, len(unresolvedFields) > 0)
 }
 
 // c01SameTypeAsRole: wire field f has the function type of interface method `role` (so an
@@ -645,6 +661,7 @@ func c01SameTypeAsRole(c *rt.Ctx, wf *types.Struct, f, role string) bool {
 
 func c01R1b(c *rt.Ctx) {
 	wire := c.Fn("core.Wire")
+	gate := c01GateFields(c.SSAPkg("core"))
 	for _, f := range an.PkgFuncs(c.SSAPkg("core")) {
 		if c01Root(f) == wire {
 			continue
@@ -664,12 +681,26 @@ func c01R1b(c *rt.Ctx) {
 				c.Check(construct, posOf(st), of == field, fmt.Sprintf("wire function %s is replaced by %s: the stage is fed to another component", field, of))
 				continue
 			}
+			if mc, ok := an.Unwrap(st.Val).(*ssa.MakeClosure); ok {
+				if bf, _ := mc.Fn.(*ssa.Function); bf != nil && bf.Synthetic != "" && strings.HasSuffix(bf.Name(), "$bound") {
+					if al, ok := fa.X.(*ssa.Alloc); ok && al.Parent() == f && f.Parent() == nil {
+						continue // a fresh wiring table is being filled with method values: bindings are R1's subject, not a wrapper
+					}
+					c.Unsure(construct, posOf(st), "the wire function is re-bound to a method value outside core.Wire")
+					continue
+				}
+			}
 			g := c01FuncValue(st.Val)
+			var calls map[ssa.CallInstruction]string
+			if g == nil {
+				g, calls = c01BuiltWrapper(st.Val)
+			} else {
+				calls = c01FieldCalls(g)
+			}
 			if g == nil {
 				c.Unsure(construct, posOf(st), "replacement of the wire function is not a function literal")
 				continue
 			}
-			calls := c01FieldCalls(g)
 			var bad []string
 			fwd := 0
 			var cis []ssa.CallInstruction
@@ -701,6 +732,15 @@ func c01R1b(c *rt.Ctx) {
 				bad = append(bad, "the wrapper never calls the function it replaces: the stage is cut off")
 			}
 			c.Check(construct, posOf(st), len(bad) == 0, strings.Join(bad, "; "))
+			if gate[field] && len(bad) == 0 {
+				var fwdCalls []ssa.CallInstruction
+				for _, ci := range cis {
+					if calls[ci] == field {
+						fwdCalls = append(fwdCalls, ci)
+					}
+				}
+				c01R1bGate(c, construct, g, fwdCalls)
+			}
 		}
 	}
 }
@@ -844,16 +884,30 @@ func c01R2(c *rt.Ctx) {
 			root := an.FuncName(c01Root(f))
 			site := func(pos token.Pos, recv types.Type, m string, how string) {
 				construct := fmt.Sprintf("%s %s %s.%s", root, how, an.TypeName(recv), m)
-				allowed := false
+				allowed, unknown := false, false
 				var owners []string
 				for o := range c01SubmitAllowed {
 					owners = append(owners, o)
 				}
 				sort.Strings(owners)
 				for _, o := range owners {
-					if c01SubmitAllowed[o][m] && c01Confined(sp, c01Root(f), o, map[*ssa.Function]bool{}) {
-						allowed = true
+					if !c01SubmitAllowed[o][m] {
+						continue
 					}
+					switch c01Confined3(sp, c01Root(f), o, map[*ssa.Function]bool{}) {
+					case c01Yes:
+						allowed = true
+					case c01Unknown:
+						// only an owner of the same package can run an unexported helper through a function value
+						slash := strings.LastIndex(o, "/") + 1
+						if dot := strings.Index(o[slash:], "."); dot >= 0 && o[:slash+dot] == rel {
+							unknown = true
+						}
+					}
+				}
+				if !allowed && unknown {
+					c.Unsure(construct, pos, "the submitting function is used as a function value the checker cannot follow: whether only the broadcaster runs it is not decided")
+					return
 				}
 				c.Check(construct, pos, allowed,
 					"a signed duty object is submitted to the beacon node outside the broadcaster: it bypasses consensus, threshold aggregation and aggregate verification")
@@ -976,28 +1030,66 @@ func c01R3(c *rt.Ctx) {
 	byType := func(short string) func(p *ssa.Parameter) bool {
 		return func(p *ssa.Parameter) bool { return an.TypeName(p.Type()) == short && !c01IsPtr(p.Type()) }
 	}
-	// fromCtor: every origin of v is result 0 of a checked call of one of the constructors.
+	// fromCtor: every origin of v is result 0 of a checked call of one of the constructors. Helpers of the wiring
+	// package that build a component are stepped into (their parameters are mapped back to the call's arguments).
+	frames := map[ssa.Instruction][]*ssa.Call{} // constructor call found inside helpers -> the chain of helper calls leading to it
 	fromCtor := func(construct string, sink ssa.Instruction, v ssa.Value, allowHook string, ctors ...string) []*ssa.Call {
 		var calls []*ssa.Call
 		var bad, unsure []string
-		for _, o := range c09Origins(v) {
-			switch {
-			case o.Kind == "call" && o.Idx == 0 && an.Static(ctors...)(&o.Call.Call):
-				if res := o.Call.Call.Signature().Results(); res.Len() > 1 {
-					if g, why := an.Guarded(o.Call, sink, an.DefaultGuard); !g {
-						bad = append(bad, "the error of "+an.CalleeName(&o.Call.Call)+" is not checked: "+why)
+		var collect func(sink ssa.Instruction, v ssa.Value, stack []*ssa.Call)
+		collect = func(sink ssa.Instruction, v ssa.Value, stack []*ssa.Call) {
+			for _, o := range c09Origins(v) {
+				switch {
+				case o.Kind == "call" && o.Idx == 0 && an.Static(ctors...)(&o.Call.Call):
+					if res := o.Call.Call.Signature().Results(); res.Len() > 1 {
+						if g, why := an.Guarded(o.Call, sink, an.DefaultGuard); !g {
+							bad = append(bad, "the error of "+an.CalleeName(&o.Call.Call)+" is not checked: "+why)
+							continue
+						}
+					}
+					calls = append(calls, o.Call)
+					frames[o.Call] = append([]*ssa.Call(nil), stack...)
+				case o.Kind == "call" && allowHook != "" && an.FieldCall(allowHook)(&o.Call.Call):
+					// test hook kept in the production configuration struct
+				case o.Kind == "call" && c01IsHelper(fn, o.Call) && len(stack) < 3:
+					h := o.Call.Call.StaticCallee()
+					if o.Call.Call.Signature().Results().Len() > 1 {
+						if g, why := an.Guarded(o.Call, sink, an.DefaultGuard); !g {
+							bad = append(bad, "the error of "+an.CalleeName(&o.Call.Call)+" is not checked: "+why)
+							continue
+						}
+					}
+					for _, r := range an.Returns(h) {
+						if o.Idx >= len(r.Results) {
+							unsure = append(unsure, "a result of "+an.FuncName(h)+" the checker does not follow")
+							continue
+						}
+						if an.IsNilConst(r.Results[o.Idx]) && c01FailingReturn(r) {
+							continue // failure path: cut off by the caller's error check
+						}
+						collect(r, r.Results[o.Idx], append(append([]*ssa.Call(nil), stack...), o.Call))
+					}
+				case o.Kind == "param" && len(stack) > 0:
+					top := stack[len(stack)-1]
+					idx := -1
+					for i, q := range top.Call.StaticCallee().Params {
+						if ssa.Value(q) == o.Val {
+							idx = i
+						}
+					}
+					if idx < 0 || idx >= len(top.Call.Args) {
+						unsure = append(unsure, "a parameter of a helper the checker cannot map to its argument")
 						continue
 					}
+					collect(top, top.Call.Args[idx], stack[:len(stack)-1])
+				case o.Kind == "other":
+					unsure = append(unsure, "an origin the checker does not follow")
+				default:
+					bad = append(bad, "found "+o.String())
 				}
-				calls = append(calls, o.Call)
-			case o.Kind == "call" && allowHook != "" && an.FieldCall(allowHook)(&o.Call.Call):
-				// test hook kept in the production configuration struct
-			case o.Kind == "other":
-				unsure = append(unsure, "an origin the checker does not follow")
-			default:
-				bad = append(bad, "found "+o.String())
 			}
 		}
+		collect(sink, v, frames[sink])
 		switch {
 		case len(bad) > 0:
 			c.Bad(construct, posOf(sink), "expected the result of "+strings.Join(ctors, " / ")+"; "+strings.Join(bad, "; "))
@@ -1017,14 +1109,14 @@ func c01R3(c *rt.Ctx) {
 		ver := argOf(k, sigaggNew, func(p *ssa.Parameter) bool { _, ok := p.Type().Underlying().(*types.Signature); return ok }, "verify function")
 		fromCtor("wireCoreWorkflow sigagg.New verifier = sigagg.NewVerifier", k, ver, "", "core/sigagg.NewVerifier")
 		thr := argOf(k, sigaggNew, func(p *ssa.Parameter) bool { return c01IsInt(p.Type()) }, "threshold")
-		c01Threshold(c, fn, "wireCoreWorkflow sigagg.New threshold = lock.Threshold", k, thr)
+		c01Threshold(c, fn, "wireCoreWorkflow sigagg.New threshold = lock.Threshold", k, c01MapParam(thr, frames[k]))
 	}
 	// --- partial signature store
 	dbCalls := fromCtor("wireCoreWorkflow core.Wire parSigDB = parsigdb.NewMemDB", wcall, wireArg("core.ParSigDB"), "", "core/parsigdb.NewMemDB")
 	memdbNew := c.Fn("core/parsigdb.NewMemDB")
 	for _, k := range dbCalls {
 		thr := argOf(k, memdbNew, func(p *ssa.Parameter) bool { return c01IsInt(p.Type()) }, "threshold")
-		c01Threshold(c, fn, "wireCoreWorkflow parsigdb.NewMemDB threshold = lock.Threshold", k, thr)
+		c01Threshold(c, fn, "wireCoreWorkflow parsigdb.NewMemDB threshold = lock.Threshold", k, c01MapParam(thr, frames[k]))
 	}
 	// --- partial signature exchange
 	exCalls := fromCtor("wireCoreWorkflow core.Wire parSigEx = parsigex.NewParSigEx", wcall, wireArg("core.ParSigEx"), "app.TestConfig.ParSigExFunc", "core/parsigex.NewParSigEx")
@@ -1133,6 +1225,20 @@ var c01Mutants = []Mutant{
 	{ID: "C01-R1-aggsigdb-rebound-after-options", File: "core/interfaces.go", Expect: "R1|AggSigDB.Store",
 		Old: "\tw.SchedulerSubscribeDuties(w.FetcherFetch)\n",
 		New: "\tw.BroadcasterBroadcast = w.AggSigDBStore\n\tw.SchedulerSubscribeDuties(w.FetcherFetch)\n"},
+	// ---- R1 (c): the aggregate store gates the broadcaster
+	{ID: "C01-R1-broadcaster-subscribed-before-store", File: "core/interfaces.go", Expect: "R1|before Broadcaster.Broadcast",
+		Old: "\tw.SigAggSubscribe(w.AggSigDBStore)\n\tw.SigAggSubscribe(w.BroadcasterBroadcast)\n",
+		New: "\tw.SigAggSubscribe(w.BroadcasterBroadcast)\n\tw.SigAggSubscribe(w.AggSigDBStore)\n"},
+	{ID: "C01-R1-broadcaster-subscribed-early", File: "core/interfaces.go", Expect: "R1|before Broadcaster.Broadcast",
+		Old:  "\tw.SchedulerSubscribeDuties(w.FetcherFetch)\n",
+		New:  "\tw.SigAggSubscribe(w.BroadcasterBroadcast)\n\tw.SchedulerSubscribeDuties(w.FetcherFetch)\n",
+		More: [][2]string{{"\tw.SigAggSubscribe(w.AggSigDBStore)\n\tw.SigAggSubscribe(w.BroadcasterBroadcast)\n", "\tw.SigAggSubscribe(w.AggSigDBStore)\n"}}},
+	{ID: "C01-R1-adapter-broadcasts-then-stores", File: "core/interfaces.go", Expect: "R1|before Broadcaster.Broadcast",
+		Old: "\tw.SigAggSubscribe(w.AggSigDBStore)\n\tw.SigAggSubscribe(w.BroadcasterBroadcast)\n",
+		New: "\tw.SigAggSubscribe(func(ctx context.Context, duty Duty, set SignedDataSet) error {\n\t\tif err := w.BroadcasterBroadcast(ctx, duty, set); err != nil {\n\t\t\treturn err\n\t\t}\n\n\t\treturn w.AggSigDBStore(ctx, duty, set)\n\t})\n"},
+	{ID: "C01-R1-store-subscribed-only-with-options", File: "core/interfaces.go", Expect: "R1|before Broadcaster.Broadcast",
+		Old: "\tw.SigAggSubscribe(w.AggSigDBStore)\n\tw.SigAggSubscribe(w.BroadcasterBroadcast)\n",
+		New: "\tif len(opts) > 0 {\n\t\tw.SigAggSubscribe(w.AggSigDBStore)\n\t}\n\n\tw.SigAggSubscribe(w.BroadcasterBroadcast)\n\n\tif len(opts) == 0 {\n\t\tw.SigAggSubscribe(w.AggSigDBStore)\n\t}\n"},
 	// ---- R1b
 	{ID: "C01-R1b-tracking-copy-paste", File: "core/tracking.go", Expect: "R1b|wraps AggSigDBStore",
 		Old: "err := clone.AggSigDBStore(ctx, duty, set)",
@@ -1149,6 +1255,15 @@ var c01Mutants = []Mutant{
 	{ID: "C01-R1b-tracking-drops-call", File: "core/tracking.go", Expect: "R1b|wraps SigAggAggregate",
 		Old: "err := clone.SigAggAggregate(ctx, duty, set)",
 		New: "err := ctx.Err()"},
+	{ID: "C01-R1b-tracking-swallows-store-error", File: "core/tracking.go", Expect: "R1b|returns the store's error",
+		Old: "\t\t\ttracker.AggSigDBStored(duty, set, err)\n\n\t\t\treturn err\n",
+		New: "\t\t\ttracker.AggSigDBStored(duty, set, err)\n\n\t\t\treturn nil\n"},
+	{ID: "C01-R1b-tracing-drops-store-error", File: "core/tracing.go", Expect: "R1b|returns the store's error",
+		Old: "\t\t\treturn withSpanStatus(span, clone.AggSigDBStore(ctx, duty, set))\n",
+		New: "\t\t\t_ = withSpanStatus(span, clone.AggSigDBStore(ctx, duty, set))\n\n\t\t\treturn nil\n"},
+	{ID: "C01-R1b-span-helper-returns-nil", File: "core/tracing.go", Expect: "R1b|returns the store's error",
+		Old: "\t\tspan.SetStatus(codes.Ok, \"\")\n\t}\n\n\treturn err\n}",
+		New: "\t\tspan.SetStatus(codes.Ok, \"\")\n\t}\n\n\treturn nil\n}"},
 	{ID: "C01-R1b-retry-wrong-duty", File: "core/retry.go", Expect: "R1b|wraps BroadcasterBroadcast",
 		Old: "return clone.BroadcasterBroadcast(ctx, duty, set)",
 		New: "return clone.BroadcasterBroadcast(ctx, Duty{Slot: duty.Slot}, set)"},
